@@ -276,6 +276,12 @@ class PathCore:
         pid = os.fork()
         if pid == 0:
             try:
+                try:        # die with the parent (a killed worker must not leave a spinning solver behind), and in any case soon
+                    import ctypes
+                    ctypes.CDLL("libc.so.6", use_errno=True).prctl(1, signal.SIGKILL, 0, 0, 0)
+                except Exception:
+                    pass
+                signal.alarm(max(2, int(FULL_FEAS_MS / 1000.0) + 2))
                 os.close(rd)
                 os.write(wr, b"u" if s.check() == z3.unsat else b"s")
             finally:
